@@ -36,6 +36,13 @@ func oracleFail(prop, class string, c sx.S, msg string) {
 	fmt.Fprintf(out, "ORACLE\t%s\t%s\t%s\t%s\n", prop, class, sx.String(c), msg)
 }
 
+// noteCase records the input about to be run, so that a crash the process cannot recover from
+// (fatal stack overflow, runtime throw) can still be reported with its input.
+func noteCase(prop, text string) {
+	os.MkdirAll("../build/tmp", 0o755)
+	os.WriteFile("../build/tmp/last-case-"+prop+".txt", []byte(text), 0o644)
+}
+
 func stat(prop, key string) { stats[prop+"\t"+key]++ }
 func statN(prop, key string, n int) { stats[prop+"\t"+key] += n }
 
